@@ -55,8 +55,10 @@ namespace nmtools::utl
         constexpr static_vector()
         {}
         constexpr static_vector(size_type n)
-            : size_(n)
-        {}
+        {
+            // same capacity test as resize: a request beyond Capacity is refused (size stays 0)
+            resize(n);
+        }
 
         template <typename...Ts>
         constexpr static_vector(T a, T b, Ts...ts)
